@@ -99,6 +99,8 @@ def gen_oracle_scenes(ctx, n_per_kind):
                     sc["params"][k] = float(rng.uniform(0.8, N / 12))
                 if k == "flux":
                     sc["params"][k] = float(abs(sc["params"][k]))
+                if k == "f_ps":
+                    sc["params"][k] = float(rng.uniform(0.2, 0.7))      # the point-source part is really there
             out.append(RC.cast32_scene(sc))
     return out
 
